@@ -1018,9 +1018,9 @@ class GCodeBuilder(GCodeCore):
             params: The movement parameters used in the command
         """
 
+        self.state._set_axes(axes)  # Raises if out of bounds
         super()._update_axes(axes, params)
         self.state._set_params(self._current_params)
-        self.state._set_axes(self._current_axes)
 
     def _get_statement(self,
         value: BaseEnum, params: dict | None = None, comment: str | None = None)-> str:
